@@ -109,7 +109,7 @@ static void gen_name(vf_rng *r, gen *g, tnode *t, unsigned flags, int allow_spac
 			case 0: if (flags & (i ? 0x2 : 0x1)) c = '0' + (int) vf_below(r, 10); break;
 			case 1: if (flags & 0x4) c = special[vf_below(r, sizeof(special) - 1)]; break;
 			case 2: if ((flags & 0x8) && allow_space && i && i + 1 < n) c = vf_chance(r, 1, 5) ? '\t' : ' '; break;
-			case 3: if ((flags & 0x20) && vf_chance(r, 1, 2)) c = 0x80 + (int) vf_below(r, 128); break;
+			case 3: if ((flags & 0x20) && vf_chance(r, 1, 2)) c = vf_chance(r, 1, 6) ? 0xfe + (int) vf_below(r, 2) : 0x80 + (int) vf_below(r, 128); break;
 			case 4: c = 'A' + (int) vf_below(r, 26); break;
 			}
 			/* no delimiter of the active format, no path separator */
@@ -140,7 +140,7 @@ static void gen_value(vf_rng *r, gen *g, tnode *t)
 		else if (k < 11) c = '0' + (int) vf_below(r, 10);
 		else if (k < 13) c = ' ';
 		else if (k < 15) c = punct[vf_below(r, sizeof(punct) - 1)];
-		else c = vf_chance(r, 1, 3) ? 0x80 + (int) vf_below(r, 128) : "\"'`"[vf_below(r, 3)];
+		else c = vf_chance(r, 1, 2) ? (vf_chance(r, 1, 5) ? 0xfe + (int) vf_below(r, 2) : vf_chance(r, 1, 3) ? 0xc3 : 0x80 + (int) vf_below(r, 128)) : "\"'`"[vf_below(r, 3)];
 		if (t->quote) {
 			/* everything but the backslash may stand between quotes */
 			if (c == '\\') c = '/';
